@@ -118,7 +118,20 @@ fn write(
 
     for printable in state.strip_next(buf) {
         let possible = printable.len();
-        let written = raw.write(printable)?;
+        let written = match raw.write(printable) {
+            Ok(written) => written,
+            Err(err) => {
+                // Like a short write: report what was already passed on (or skipped) so the caller
+                // doesn't resubmit it; a persistent error will be hit again on the next call
+                let offset = offset_to(buf, printable);
+                *state = initial_state;
+                if offset == 0 {
+                    return Err(err);
+                }
+                state.strip_next(&buf[..offset]).last();
+                return Ok(offset);
+            }
+        };
         if possible != written {
             let divergence = &printable[written..];
             let offset = offset_to(buf, divergence);
